@@ -270,11 +270,13 @@ func (a String) M__mul__(other Object) (Object, error) {
 		if b < 0 {
 			b = 0
 		}
-		var out bytes.Buffer
-		for i := 0; i < int(b); i++ {
-			out.WriteString(string(a))
+		if len(a) == 0 || b == 0 {
+			return String(""), nil
 		}
-		return String(out.String()), nil
+		if int64(b) > int64(maxAllocSize)/int64(len(a)) {
+			return nil, ExceptionNewf(MemoryError, "repeated string is too long")
+		}
+		return String(strings.Repeat(string(a), int(b))), nil
 	}
 	return NotImplemented, nil
 }
